@@ -2,6 +2,7 @@
 model (TwistedModel/Amp/Box.lean, Args.lean) + the round-trip / refusal oracle on the real code."""
 import datetime
 import decimal
+import enum
 import math
 import struct
 
@@ -13,7 +14,10 @@ from twisted.python._tzhelper import FixedOffsetTimeZone
 HEADLINE = "TwistedProps.C30.parse_serialize / stream_roundtrip / arg_roundtrip"
 RULE = ("streams of 0..5 boxes (0..6 items; key lengths around 0/1/255/256, value lengths around 0/255/256/65535/65536, "
         "bytes incl. NUL) sent through BinaryBoxProtocol.sendBox and cut at random / every / boundary±1 positions incl. "
-        "empty chunks; raw malformed chunk sequences (over-long key prefix, truncation, data after lengthLimitExceeded); "
+        "empty chunks; in ~30% of multi-box streams ONE AmpBox object is filled, sent, changed IN PLACE (clear+update / del+update / "
+        "pop+setdefault / popitem+|= / item assignment) and sent again; bulk streams of 3-4 boxes with 64 KiB values arriving in "
+        "one or two reads (>128 KiB buffered); the receiver keeps the delivered box objects and they must stay distinct and "
+        "unchanged; raw malformed chunk sequences (over-long key prefix, truncation, data after lengthLimitExceeded); "
         "AmpBox.serialize alone; toStringProto/fromStringProto of Integer, String, Unicode, Boolean, Decimal (sign/coefficient/"
         "exponent around the scientific-notation boundaries, ±Infinity, ±NaN/±sNaN with payloads), DateTime (fields at their "
         "limits, leap days, offsets at ±0/±1 min/±23:59:59.999999, sub-minute and out-of-range offsets, naive values), ListOf "
@@ -21,12 +25,28 @@ RULE = ("streams of 0..5 boxes (0..6 items; key lengths around 0/1/255/256, valu
         "dashed names, 255/256-byte names, empty schema) on boundary values AND on mutated/hostile encodings (int() leniency, "
         "overlong/surrogate/truncated UTF-8, broken list framing, lenient/out-of-range/mis-sized DateTime texts, the "
         "Decimal(str) grammar incl. underscores/whitespace/case, AmpList rows with missing/unknown/duplicate keys and over-long "
-        "key prefixes) — all through BOTH the real classes and the Lean model; non-bytes keys/values and "
-        "Float/Path/Command round trips are run on the real code only (oracle); distinct = (op, type, size/boundary "
-        "classes, cut style, offset / notation class, outcome classes)")
+        "key prefixes) — all through BOTH the real classes and the Lean model; Unicode values include U+FEFF (leading and "
+        "inner), non-characters, combining sequences / compatibility forms that are not NFC/NFKC, Unicode white space and line "
+        "separators; values are also passed as legal-but-unusual Python objects (`flav`: bool / IntEnum / IntEnum with its own "
+        "__str__ / plain int subclass for Integer, tuple / generator / iterator for ListOf and AmpList rows, datetime.timezone "
+        "for DateTime); HISTORIES on ONE Argument object (`seq`: decode truncated / hostile / valid bytes, then encode and "
+        "round-trip values with that same object; for DateTime also ONE tzinfo object whose utcoffset depends on the datetime, "
+        "like a zone with DST) — every step compared with the (pure) Lean model; non-bytes keys/values (str, None, int, 0, bool, "
+        "float, list, empty list, list of bytes, tuple, dict, object, str subclass, empty str, Enum; alone or beside bytes "
+        "keys) and Float/Path/Command round trips are run on the real code only (oracle); distinct = (op, type, size/boundary "
+        "classes, cut style, reuse style, flavour, step kinds, offset / notation class, outcome classes)")
 ASSUMES = [
     "sender is a connected, unlocked BinaryBoxProtocol that is not buffering for STARTTLS; no protocol switch",
-    "a box is a dict of bytes→bytes; str/None keys or values (TypeError) are checked by the oracle on the real code only",
+    "a box is a dict of bytes→bytes; keys or values of any other common Python type (str, None, int, bool, float, list, tuple, "
+    "dict, object, str subclass, Enum) must be refused at send time with nothing written — checked by the oracle on the real "
+    "code only (the exception class is pinned to TypeError for the str/None/int-key classes); bytearray/memoryview values "
+    "(bytes-like, written unchanged) are not judged",
+    "an AmpBox object may be changed through any part of the dict interface between two sendBox calls; what is sent is its "
+    "content at the time of the call (the Lean model has no box identity: a box is its content)",
+    "an Argument object is stateless across calls in the Lean model (toString/fromString are pure functions); the tie runs "
+    "histories on ONE real object and compares every step with the model",
+    "Integer values are ints incl. subclasses (bool, IntEnum, a user __str__); ListOf / AmpList values are any iterable of "
+    "elements (list, tuple, generator, iterator) and decode to a list of equal elements",
     "Integer: |n| < 10**4300 (CPython's int↔str digit limit raises ValueError beyond it on both encode and decode)",
     "Float: float(repr(x)) == x (NaN ↦ NaN) is a HYPOTHESIS of arg_roundtrip (FloatCodec parameter; CPython guarantee), "
     "exercised by the oracle on the real code only",
@@ -61,7 +81,10 @@ MANIFEST = {
             "reusing parse_serialize), every value toString accepts decodes to an equal value (normVal: identity except the "
             "DateTime offset; normVal_id). Float and Path enter through two platform parameters with hypotheses "
             "float(repr x) = x and abspath p = p for a FilePath's path. Non-bytes refusals (TypeError), Float/Path/Command "
-            "are covered by the oracle on the real code. Model tied to amp.py/basic.py/_tzhelper.py by differential runs.",
+            "are covered by the oracle on the real code. Model tied to amp.py/basic.py/_tzhelper.py by differential runs — "
+            "including histories on one Argument / AmpBox / tzinfo object (the model is a pure function of the content, so "
+            "the theorems hold for every history; that the real objects carry no state from call to call is what the tie "
+            "and the oracle check), values given as int subclasses / one-shot iterables, and >128 KiB reads.",
     "note": "trusts Lean kernel, the hand-written model of AmpBox.serialize / IntNStringReceiver.dataReceived / "
             "BinaryBoxProtocol.proto_* / Argument subclasses incl. Decimal.__str__/Decimal(str) and DateTime text "
             "(differentially tied), CPython struct/int/utf-8/decimal/datetime; repr(float)/float and os.path.abspath are "
@@ -102,7 +125,8 @@ def show_boxes(bs):
 
 class Recorder:
     def __init__(self):
-        self.boxes = []
+        self.boxes = []      # snapshot taken at delivery time
+        self.refs = []       # the delivered objects themselves (a receiver may keep them: parseString does)
         self.stopped = None
 
     def startReceivingBoxes(self, sender):
@@ -110,6 +134,7 @@ class Recorder:
 
     def ampBoxReceived(self, box):
         self.boxes.append(dict(box))
+        self.refs.append(box)
 
     def stopReceivingBoxes(self, reason):
         self.stopped = reason
@@ -132,14 +157,50 @@ def cut(wire, sizes):
     return out
 
 
-def send_all(boxes):
-    """boxes: list of python dicts → (wire, [status])"""
+def _morph(b, d, how):
+    """turn the AmpBox object `b` (already sent once) into content `d` IN PLACE, through a different part of the
+    dict interface for each `how` (a user may fill, send, change and re-send one box object)"""
+    if how == 1:
+        b.clear()
+        b.update(d)
+    elif how == 2:
+        for k in [k for k in b if k not in d]:
+            del b[k]
+        b.update(d)
+    elif how == 3:
+        for k in [k for k in b if k not in d or b[k] != d[k]]:
+            b.pop(k)
+        for k, v in d.items():
+            b.setdefault(k, v)
+    elif how == 4:
+        while b:
+            b.popitem()
+        b |= d
+    else:
+        for k in [k for k in b if k not in d]:
+            del b[k]
+        for k, v in d.items():
+            b[k] = v
+    assert dict(b) == d
+    return b
+
+
+def send_all(boxes, reuse=None):
+    """boxes: list of python dicts → (wire, [status]); reuse[i] > 0: box i is the SAME AmpBox object as box i-1,
+    changed in place (style reuse[i]) after box i-1 was handed to sendBox"""
     rec, p, t = receiver()
     status = []
-    for d in boxes:
+    prev = None
+    for i, d in enumerate(boxes):
         before = len(t.value())
+        how = reuse[i] if reuse and i < len(reuse) else 0
         try:
-            p.sendBox(amp.AmpBox(d) if not _has_str_key(d) else _rawbox(d))
+            if how and prev is not None and not _has_str_key(d):
+                box = _morph(prev, d, how)
+            else:
+                box = amp.AmpBox(d) if not _has_str_key(d) else _rawbox(d)
+            prev = box
+            p.sendBox(box)
             status.append("ok")
         except Exception as e:  # the refusal is the observable
             status.append(type(e).__name__)
@@ -163,6 +224,10 @@ def recv_all(chunks):
     rec, p, t = receiver()
     for c in chunks:
         p.dataReceived(c)
+    if [dict(b) for b in rec.refs] != rec.boxes or len({id(b) for b in rec.refs}) != len(rec.refs):
+        # a delivered box was changed (or handed out twice) after delivery: receivers that keep boxes would see other
+        # boxes than were sent
+        raise AssertionError("delivered box object mutated or reused after ampBoxReceived")
     return rec.boxes, t.disconnecting
 
 
@@ -247,14 +312,79 @@ US_DAY = 86400 * 10 ** 6
 US_MIN = 60 * 10 ** 6
 
 
-def to_py(ty, v):
-    return _to_py(pty(ty) if isinstance(ty, str) else ty, v)
+class _MyInt(int):
+    """a plain int subclass (no overridden methods)"""
 
 
-def _to_py(t, v):
+class _NamedCode(enum.IntEnum):
+    """an IntEnum whose members print as their name (a common user-defined __str__; the default before Python 3.11)"""
+
+    def __str__(self):
+        return self.name
+
+    __format__ = enum.Enum.__format__
+
+
+_ENUMS = {}
+
+
+def _int_flavoured(n, how):
+    """the same integer as a legal-but-unusual object: bool for 0/1, an IntEnum member, a plain int subclass"""
+    if how == "sub":
+        if n in (0, 1):
+            return bool(n)
+        if -10 ** 12 < n < 10 ** 12:
+            if n not in _ENUMS:
+                if len(_ENUMS) > 2000:
+                    _ENUMS.clear()
+                # every other one with the usual user-defined `__str__` (the member's name): still an int
+                _ENUMS[n] = (enum.IntEnum("Code", {"MEMBER": n}) if n % 2 else _NamedCode("Code", {"MEMBER": n})).MEMBER
+            return _ENUMS[n]
+        return _MyInt(n)
+    return n
+
+
+def _seq_flavoured(xs, how):
+    """the same sequence as a tuple / generator / iterator (one-shot iterables)"""
+    if how == "tuple":
+        return tuple(xs)
+    if how == "gen":
+        return (x for x in xs)
+    if how == "iter":
+        return iter(xs)
+    return xs
+
+
+class ScriptTZ(datetime.tzinfo):
+    """ONE tzinfo object whose utcoffset depends on the datetime asked about (like a zone with DST): the offsets are
+    looked up by the datetime's own fields"""
+
+    def __init__(self):
+        self.table = {}
+
+    @staticmethod
+    def key(dt):
+        return (dt.year, dt.month, dt.day, dt.hour, dt.minute, dt.second, dt.microsecond)
+
+    def utcoffset(self, dt):
+        return datetime.timedelta(microseconds=self.table[self.key(dt)])
+
+    def dst(self, dt):
+        return datetime.timedelta(0)
+
+    def tzname(self, dt):
+        return "script"
+
+
+def to_py(ty, v, ctx=None):
+    return _to_py(pty(ty) if isinstance(ty, str) else ty, v, ctx or {})
+
+
+def _to_py(t, v, ctx=None):
+    ctx = ctx or {}
     k = t[0]
     if k == "int":
-        return int(v)
+        return _int_flavoured(int(v), ctx.get("int"))
     if k == "str":
         return unhx(v)
     if k == "uni":
@@ -271,11 +401,17 @@ def _to_py(t, v):
     if k == "dt":
         y, mo, d, h, mi, s, us, off = v
         tz = None if off is None else FixedOffsetTimeZone(datetime.timedelta(microseconds=off))
+        shared = ctx.get("tz")
+        if shared is not None and off is not None and shared.table.setdefault((y, mo, d, h, mi, s, us), off) == off:
+            tz = shared
+        elif off is not None and ctx.get("tzkind") == "stdlib" and -US_DAY < off < US_DAY:
+            tz = datetime.timezone(datetime.timedelta(microseconds=off))
         return datetime.datetime(y, mo, d, h, mi, s, us, tzinfo=tz)
     if k == "L":
-        return [_to_py(t[1], x) for x in v]
+        return _seq_flavoured([_to_py(t[1], x, ctx) for x in v], ctx.get("it"))
     if k == "A":
-        return [{_pykey(name): (None if x is None else _to_py(ft, x)) for (name, opt, ft), x in zip(t[1], row)} for row in v]
+        return _seq_flavoured([{_pykey(name): (None if x is None else _to_py(ft, x, ctx)) for (name, opt, ft), x in zip(t[1], row)}
+                               for row in v], ctx.get("it"))
     raise ValueError(t)
 
 
@@ -661,8 +797,30 @@ def corpus():
         {"op": "arg", "kind": "datetime", "val": [2012, 6, 1, 0, 0, 0, 0, -86399, 0]},
         {"op": "arg", "kind": "datetime", "val": [2012, 6, 1, 0, 0, 0, 0, -30, 0]},
         {"op": "arg", "kind": "datetime", "val": [2012, 6, 1, 0, 0, 0, 0, 86399, 999999]},
-    ]
+        # classes added by the white-box mutation audit (harness/mutants/C30)
+        {"op": "enc", "ty": "uni", "val": [0xFEFF, 0x61, 0x62, 0x63]},                 # a leading U+FEFF is a character, not a BOM
+        {"op": "enc", "ty": "uni", "val": [0x65, 0x301, 0x212B, 0x1100, 0x1161]},       # not NFC: must come back unnormalised
+        {"op": "dec", "ty": "uni", "hex": "efbbbf61"},
+        {"op": "enc", "ty": "Luni", "val": [[0xFEFF], [0x41, 0x30A]]},
+        {"op": "enc", "ty": "int", "val": "1", "flav": {"int": "sub"}},                  # True
+        {"op": "enc", "ty": "Lint", "val": ["0", "1", "-7", str(10 ** 30)], "flav": {"int": "sub", "it": "gen"}},
+        {"op": "enc", "ty": "LLint", "val": [["1", "2"], [], ["3"]], "flav": {"it": "iter"}},
+        {"op": "enc", "ty": SCHEMAS[0], "val": [["1", "61", None, False, ["0"]], ["0", "", [], None, []]], "flav": {"int": "sub", "it": "tuple"}},
+        {"op": "seq", "ty": "Lint", "steps": [["dec", "000131000561"], ["rt", ["7", "8"]], ["dec", "00"], ["rt", []], ["rt", ["9"]]]},
+        {"op": "seq", "ty": "dt", "sharedtz": True, "steps": [["rt", [2020, 1, 1, 12, 0, 0, 0, 60 * US_MIN]], ["rt", [2020, 7, 1, 12, 0, 0, 0, 120 * US_MIN]],
+                                                               ["rt", [2020, 1, 1, 12, 0, 0, 0, 60 * US_MIN]]]},
+        {"op": "seq", "ty": SCHEMAS[0], "steps": [["rt", [["1", "61", [0x41], True, ["1"]]]], ["rt", [["2", "", None, None, None]]],
+                                                    ["dec", "00016e0001"], ["rt", [["3", "62", None, False, []]]]]},
+        {"op": "stream", "boxes": [[["61", "31"]], [["61", "32"]], [["7a", "39"]], [["7a", "39"], ["61", ""]]], "sizes": [], "reuse": [0, 1, 3, 2]},
+        {"op": "stream", "boxes": [[["61", "31"], ["62", "32"]], [["61", "31"]], [], [["62", "33"]]], "sizes": [7], "reuse": [0, 2, 1, 4]},
+        {"op": "stream", "boxes": [[["61", "78" * 65535]], [["62", "79" * 65535], ["63", "7a" * 65534]], [["64", "77" * 10]]], "sizes": []},
+        {"op": "stream", "boxes": [[["61", "78" * 65535]], [["62", "79" * 65535]], [["63", "7a" * 65535]], [["64", ""]]], "sizes": [131075]},
+    ] + [{"op": "refuse", "bad": b, "box": [["61", "31"]]} for b in NEW_BAD]
 
+
+# non-bytes keys / values of every common Python type (the statement: refused when sent, stream not corrupted)
+NEW_BAD = ["intval", "zeroval", "boolval", "floatval", "listval", "emptylistval", "byteslistval", "tupleval", "dictval", "objval",
+           "strsubval", "emptystrval", "enumval", "nonekey", "tuplekey", "strsubkey", "boolkey", "floatkey", "nonekey-only", "intkey-only"]
 
 KEY_LENS = [1, 1, 1, 2, 3, 5, 8, 17, 254, 255]
 BAD_KEY_LENS = [0, 0, 256, 300]
@@ -745,10 +903,49 @@ def _gen_sizes(rng, total, boxes):
     return sizes
 
 
+def _derive_box(rng, prev):
+    """a box sharing keys with the previous one (one value changed / a key removed / a key added / the same again)"""
+    items = [list(x) for x in prev]
+    r = rng.random()
+    if items and r < 0.4:
+        i = rng.randrange(len(items))
+        items[i][1] = hx(_bytes(rng, rng.choice(VAL_LENS)))
+    elif items and r < 0.6:
+        del items[rng.randrange(len(items))]
+    elif r < 0.85:
+        k = hx(_bytes(rng, rng.choice(KEY_LENS[:7])))
+        if k not in [x[0] for x in items]:
+            items.append([k, hx(_bytes(rng, rng.choice(VAL_LENS)))])
+    rng.shuffle(items)
+    return items
+
+
+def _gen_bulk_stream(rng):
+    """several maximal values arriving in ONE read (or two): more than 128 KiB buffered at once"""
+    boxes = []
+    for i in range(rng.choice([3, 3, 3, 4])):
+        boxes.append([[hx(bytes([0x61 + i, 0x30 + j])), hx(_bytes(rng, rng.choice([65535, 65535, 65534, 30000])))] for j in range(rng.choice([1, 1, 2]))])
+    boxes.append(_gen_box(rng, 0, 0))
+    total = _ideal_wire_len(boxes)
+    return {"op": "stream", "boxes": boxes, "sizes": rng.choice([[], [], [1], [total - 1], [total - 2], [65537], [65539, 65539], [131076]])}
+
+
 def _gen_stream(rng):
     bad_p = rng.choice([0, 0, 0.05, 0.15])
     big_p = rng.choice([0, 0, 0, 0.03])
-    boxes = [_gen_box(rng, bad_p, big_p) for _ in range(rng.choice([0] + [1, 1, 2, 2, 3, 4, 5] * 5))]
+    n = rng.choice([0] + [1, 1, 2, 2, 3, 4, 5] * 5)
+    if rng.random() < 0.3 and n >= 2:
+        # ONE AmpBox object filled, sent, changed in place and sent again
+        boxes, reuse = [], []
+        for i in range(n):
+            if boxes and rng.random() < 0.75:
+                boxes.append(_derive_box(rng, boxes[-1]) if rng.random() < 0.7 else _gen_box(rng, bad_p, 0))
+                reuse.append(rng.randint(1, 5))
+            else:
+                boxes.append(_gen_box(rng, bad_p, 0))
+                reuse.append(0)
+        return {"op": "stream", "boxes": boxes, "sizes": _gen_sizes(rng, _ideal_wire_len(boxes), boxes), "reuse": reuse}
+    boxes = [_gen_box(rng, bad_p, big_p) for _ in range(n)]
     return {"op": "stream", "boxes": boxes, "sizes": _gen_sizes(rng, _ideal_wire_len(boxes), boxes)}
 
 
@@ -775,7 +972,14 @@ def _gen_feed(rng):
 
 INTS = [0, 1, -1, 9, 10, -10, 99, 100, 255, 256, 65535, 65536, 2 ** 31, -(2 ** 31), 2 ** 63, 2 ** 64, -(2 ** 64) - 1, 10 ** 18, 10 ** 19 - 1]
 CPS = [0, 0x41, 0x7F, 0x80, 0xFF, 0x7FF, 0x800, 0xFFF, 0x1000, 0xD7FF, 0xE000, 0xFFFD, 0xFFFF, 0x10000, 0x3FFFF, 0x40000,
-       0xFFFFF, 0x100000, 0x10FFFF, 0x20AC, 0x1F600, 0x0A, 0x20]
+       0xFFFFF, 0x100000, 0x10FFFF, 0x20AC, 0x1F600, 0x0A, 0x20,
+       # characters a "helpful" decoder may drop or rewrite: BOM / non-characters, combining marks, compatibility forms,
+       # Unicode white space and line separators, soft hyphen, case-mapping specials
+       0xFEFF, 0xFFFE, 0x301, 0x30A, 0x323, 0x212B, 0x2126, 0xF900, 0x1100, 0x1161, 0x2028, 0x2029, 0x85, 0xA0, 0x200B, 0x3000,
+       0x1C, 0xAD, 0xDF, 0x130, 0x0D]
+# sequences that Unicode normalisation (NFC/NFKC), BOM stripping, strip() or newline translation would change
+UNI_SEQS = [[0xFEFF], [0xFEFF, 0x61], [0xFEFF, 0xFEFF], [0x65, 0x301], [0x41, 0x30A], [0x1100, 0x1161], [0x1100, 0x1161, 0x11A8],
+            [0x212B], [0xF900], [0x44, 0x307, 0x323], [0x20, 0x61, 0x20], [0x0D, 0x0A], [0x0A], [0xFB01], [0x32, 0x2075], [0xC5], [0x3A9]]
 
 
 def _gen_val(rng, ty, depth=0):
@@ -839,6 +1043,10 @@ def _gen_val_t(rng, t, depth=0):
     if k == "uni":
         n = rng.choice([0, 1, 1, 2, 3, 6, 12])
         out = [rng.choice(CPS) if rng.random() < 0.8 else rng.randrange(0x110000) for _ in range(n)]
+        if rng.random() < 0.3:
+            seq = rng.choice(UNI_SEQS)
+            pos = 0 if rng.random() < 0.5 else rng.randrange(len(out) + 1)
+            out[pos:pos] = seq
         if rng.random() < 0.06 and out:
             out[rng.randrange(len(out))] = rng.choice([0xD800, 0xDBFF, 0xDC00, 0xDFFF])
         return out
@@ -885,7 +1093,7 @@ def _mutate(rng, b):
         elif r < 0.55:
             b[pos:pos] = rng.choice([b" ", b"_", b"\t", b"\x0b", b"\x0c", b"\r\n", b"+", b"-", b"0", b"\x00", b"\x80", b"\x1c",
                                      b"\xc0\x80", b"\xed\xa0\x80", b"\xf4\x90\x80\x80", b"\xe0\x9f\xbf", b"\xf0\x8f\xbf\xbf",
-                                     b"\x00\x00", b"\xff\xff", b"\x00\x01"])
+                                     b"\x00\x00", b"\xff\xff", b"\x00\x01", b"\xef\xbb\xbf", b"\xcc\x81", b"\xe2\x80\xa8"])
         elif r < 0.8 and b:
             del b[pos % len(b)]
         else:
@@ -973,6 +1181,12 @@ def _gen_dec(rng):
             raw = _mutate(rng, raw)
         if rng.random() < 0.08:
             raw += rng.choice([b"\x01\x00", b"\xff\xff", b"\x00\x01k\xff\xff"])
+    elif ty in ("uni", "Luni") and rng.random() < 0.25:
+        # a BOM in front of the text (of the first element for a list)
+        if ty == "uni":
+            raw = b"\xef\xbb\xbf" + raw
+        elif len(raw) >= 2:
+            raw = struct.pack("!H", (struct.unpack("!H", raw[:2])[0] + 3) & 0xFFFF) + b"\xef\xbb\xbf" + raw[2:]
     elif rng.random() < 0.6:
         raw = _mutate(rng, raw)
     if len(raw) > 70000:
@@ -1022,7 +1236,7 @@ def _gen_other(rng):
         return {"op": "arg", "kind": kind, "val": [y, mo, d, rng.choice([0, 23, rng.randint(0, 23)]), rng.choice([0, 59, rng.randint(0, 59)]),
                                                    rng.choice([0, 59, rng.randint(0, 59)]), rng.choice([0, 1, 999999, rng.randrange(10 ** 6)]), offs, offus]}
     if kind == "path":
-        segs = ["/"] + [rng.choice(["a", "tmp", "é", "€uro", "x y", "\U0001F600", "..", ".", "b.c"]) for _ in range(rng.randint(0, 4))]
+        segs = ["/"] + [rng.choice(["a", "tmp", "é", "€uro", "x y", "\U0001F600", "..", ".", "b.c", "e\u0301", "\ufeffx", "A\u030a", "\u212b", " lead", "trail "]) for _ in range(rng.randint(0, 4))]
         return {"op": "arg", "kind": kind, "val": [ord(c) for c in "/".join(segs).replace("//", "/")]}
     rows = []
     for _ in range(rng.choice([0, 1, 1, 2, 3]) if kind == "amplist" else 1):
@@ -1042,7 +1256,58 @@ def _gen_other(rng):
 
 
 def _gen_refuse(rng):
-    return {"op": "refuse", "bad": rng.choice(["strkey", "strval", "noneval", "intkey", "strkey-only"]), "box": _gen_box(rng, 0, 0)[:3]}
+    return {"op": "refuse", "bad": rng.choice(["strkey", "strval", "noneval", "intkey", "strkey-only"] + NEW_BAD * 2), "box": _gen_box(rng, 0, 0)[:3]}
+
+
+SEQ_TYPES = ["Lint", "Lint", "Lstr", "Luni", "LLint", "Ldt", "Ldec", "dt", "dt", "dt", "int", "uni", "dec", "bool", "str"] + SCHEMAS[:3] * 2 + [SCHEMAS[4], SCHEMAS[7]]
+
+
+def _has_dt(t):
+    return t[0] == "dt" or (t[0] == "L" and _has_dt(t[1])) or (t[0] == "A" and any(_has_dt(ft) for _, _, ft in t[1]))
+
+
+def _gen_flav(rng, ty):
+    f = {}
+    if rng.random() < 0.5:
+        f["int"] = "sub"
+    if rng.random() < 0.6:
+        f["it"] = rng.choice(["tuple", "gen", "iter"])
+    if rng.random() < 0.3:
+        f["tzkind"] = "stdlib"
+    return f
+
+
+def _gen_seq(rng):
+    """a HISTORY on one Argument object: decode hostile/truncated input, then round-trip values (state left in the
+    object by an earlier call must not leak into a later one)"""
+    ty = rng.choice(SEQ_TYPES)
+    steps = []
+    for _ in range(rng.choice([2, 2, 3, 3, 4, 5])):
+        r = rng.random()
+        if r < 0.5:
+            steps.append(["rt", _gen_val(rng, ty)])
+        elif r < 0.6:
+            steps.append(["enc", _gen_val(rng, ty)])
+        else:
+            try:
+                raw = mk_arg(ty).toStringProto(to_py(ty, _gen_val(rng, ty)), None)
+            except Exception:
+                raw = b"\x00"
+            q = rng.random()
+            if q < 0.5 and raw:
+                raw = raw[:rng.randrange(len(raw))]             # truncated: a partial element / box stays behind
+            elif q < 0.7:
+                raw = raw + rng.choice([b"\x00", b"\x00\x05ab", b"\xff", b"\x00\x01", b"\x01\x00"])
+            elif q < 0.85:
+                raw = _mutate(rng, raw)
+            steps.append(["dec", hx(raw[:70000])])
+    c = {"op": "seq", "ty": ty, "steps": steps}
+    if _has_dt(pty(ty)) and rng.random() < 0.7:
+        c["sharedtz"] = True
+        # the same wall-clock fields are reused with the SAME offset only (a tzinfo is a function of the datetime)
+    if rng.random() < 0.4:
+        c["flav"] = _gen_flav(rng, ty)
+    return c
 
 
 def generate(rng, tier):
@@ -1055,15 +1320,22 @@ def generate(rng, tier):
             yield _gen_feed(rng)
         elif r < 0.57:
             yield {"op": "serialize", "box": _gen_box(rng, 0.1, 0.01)}
-        elif r < 0.72:
+        elif r < 0.70:
             ty = rng.choice(TYPES)
-            yield {"op": "enc", "ty": ty, "val": _gen_val(rng, ty)}
-        elif r < 0.87:
+            c = {"op": "enc", "ty": ty, "val": _gen_val(rng, ty)}
+            if rng.random() < 0.35:
+                c["flav"] = _gen_flav(rng, ty)
+            yield c
+        elif r < 0.83:
             yield _gen_dec(rng)
-        elif r < 0.97:
+        elif r < 0.90:
+            yield _gen_seq(rng)
+        elif r < 0.965:
             yield _gen_other(rng)
-        else:
+        elif r < 0.997:
             yield _gen_refuse(rng)
+        else:
+            yield _gen_bulk_stream(rng)
 
 
 def model_line(c):
@@ -1080,6 +1352,11 @@ def model_line(c):
         return f"enc {c['ty']} " + " ".join(val_tokens(c["ty"], c["val"]))
     if op == "dec":
         return f"dec {c['ty']} " + (c["hex"] or "-")
+    if op == "seq":
+        parts = []
+        for kind, x in c["steps"]:
+            parts.append(f"dec {x or '-'}" if kind == "dec" else kind + " " + " ".join(val_tokens(c["ty"], x)))
+        return f"seq {c['ty']} " + " | ".join(parts)
     return "unmodelled"
 
 
@@ -1088,6 +1365,8 @@ def _bad_box(c):
     bad = c["bad"]
     if bad == "strkey":
         d["key"] = b"v"
+    elif bad not in ("strkey-only", "strval", "noneval", "intkey") and bad not in NEW_BAD:
+        raise ValueError(bad)
     elif bad == "strkey-only":
         d = {"key": b"v"}
     elif bad == "strval":
@@ -1096,13 +1375,40 @@ def _bad_box(c):
         d[b"k"] = None
     elif bad == "intkey":
         d[5] = b"v"
+    elif bad in _BAD_VALUES:
+        d[b"k"] = _BAD_VALUES[bad]()
+    elif bad in _BAD_KEYS:
+        d[_BAD_KEYS[bad]()] = b"v"
+    elif bad == "nonekey-only":
+        d = {None: b"v"}
+    elif bad == "intkey-only":
+        d = {7: b"v"}
+    else:
+        raise ValueError(bad)
     return d
+
+
+class _StrSub(str):
+    pass
+
+
+class _Colour(enum.Enum):
+    RED = b"red"
+
+
+_BAD_VALUES = {
+    "intval": lambda: 3, "zeroval": lambda: 0, "boolval": lambda: True, "floatval": lambda: 1.5, "listval": lambda: [1, 2],
+    "emptylistval": lambda: [], "byteslistval": lambda: [b"a", b"b"], "tupleval": lambda: (b"a",), "dictval": lambda: {b"a": b"b"},
+    "objval": lambda: object(), "strsubval": lambda: _StrSub("text"), "emptystrval": lambda: "", "enumval": lambda: _Colour.RED,
+}
+_BAD_KEYS = {"nonekey": lambda: None, "tuplekey": lambda: (b"a",), "strsubkey": lambda: _StrSub("key"), "boolkey": lambda: True,
+             "floatkey": lambda: 2.5}
 
 
 def run_impl(c):
     op = c["op"]
     if op == "stream":
-        wire, status = send_all([box_of(b) for b in c["boxes"]])
+        wire, status = send_all([box_of(b) for b in c["boxes"]], c.get("reuse"))
         boxes, closed = recv_all(cut(wire, c["sizes"]))
         return f"sent={','.join(status) if status else '.'} recv={show_boxes(boxes)} closed={int(bool(closed))}"
     if op == "feed":
@@ -1114,17 +1420,24 @@ def run_impl(c):
         except (amp.AmpError, ValueError, TypeError) as e:
             return "!raised " + type(e).__name__
     if op == "enc":
-        arg = mk_arg(c["ty"])
-        try:
-            return hx(arg.toStringProto(to_py(c["ty"], c["val"]), None)) or "-"
-        except (ValueError, TypeError, struct.error, amp.TooLong) as e:
-            return "!raised " + type(e).__name__
+        return _run_enc(mk_arg(c["ty"]), c["ty"], c["val"], c.get("flav"))
     if op == "dec":
-        arg = mk_arg(c["ty"])
-        try:
-            return " ".join(py_tokens(c["ty"], arg.fromStringProto(unhx(c["hex"]), None)))
-        except (ValueError, TypeError, KeyError, AttributeError, decimal.InvalidOperation) as e:
-            return "!raised " + type(e).__name__
+        return _run_dec(mk_arg(c["ty"]), c["ty"], unhx(c["hex"]))
+    if op == "seq":
+        arg = mk_arg(c["ty"])           # ONE Argument object for the whole history
+        ctx = dict(c.get("flav") or {})
+        if c.get("sharedtz"):
+            ctx["tz"] = ScriptTZ()      # ONE tzinfo object whose offset depends on the datetime
+        outs = []
+        for kind, x in c["steps"]:
+            if kind == "dec":
+                outs.append(_run_dec(arg, c["ty"], unhx(x)))
+            else:
+                o = _run_enc(arg, c["ty"], x, ctx)
+                if kind == "rt" and not o.startswith("!"):
+                    o += " => " + _run_dec(arg, c["ty"], unhx(o.replace("-", "")))
+                outs.append(o)
+        return " | ".join(outs)
     if op == "refuse":
         wire, status = send_all([{b"ok": b"1"}, _bad_box(c), {b"ok": b"2"}])
         boxes, closed = recv_all([wire])
@@ -1146,6 +1459,20 @@ def run_impl(c):
         arg, val, _ = mk_other(kind, c["val"])
         return canon_other(kind, arg.fromString(arg.toString(val)))
     raise ValueError(op)
+
+
+def _run_enc(arg, ty, val, ctx):
+    try:
+        return hx(arg.toStringProto(to_py(ty, val, ctx), None)) or "-"
+    except (ValueError, TypeError, struct.error, amp.TooLong) as e:
+        return "!raised " + type(e).__name__
+
+
+def _run_dec(arg, ty, raw):
+    try:
+        return " ".join(py_tokens(ty, arg.fromStringProto(raw, None)))
+    except (ValueError, TypeError, KeyError, AttributeError, decimal.InvalidOperation) as e:
+        return "!raised " + type(e).__name__
 
 
 def compare(c, impl_out, model_out):
@@ -1208,25 +1535,33 @@ def oracle(c, out):
             return {"key": cls + "-sent", "detail": f"serialize accepted an unrepresentable box ({cls})"}
         return None
     if op == "refuse":
+        if c["bad"] in NEW_BAD:
+            # the statement: refused when sent (any exception), nothing of it written, the stream around it intact
+            m = out.split(" ")
+            st = m[0][5:].split(",") if m and m[0].startswith("sent=") else []
+            if len(st) != 3 or st[0] != "ok" or st[2] != "ok" or st[1] == "ok" or "partial-write" in st[1] \
+                    or m[1:] != ["recv=6f6b:31;6f6b:32", "closed=0"]:
+                return {"key": "nonbytes-" + c["bad"], "detail": out[:200]}
+            return None
         if out != "sent=ok,TypeError,ok recv=6f6b:31;6f6b:32 closed=0":
             return {"key": "nonbytes-" + c["bad"], "detail": out[:200]}
         return None
     if op == "enc":
-        ty = c["ty"]
-        ok = representable(ty, c["val"])
-        cls = ty_class(ty)
-        if out.startswith("!"):
-            if ok:
-                return {"key": "arg-refused-" + cls, "detail": f"{ty} value refused: {out}"}
-            return None
-        if not ok:
-            return {"key": "arg-unrepresentable-encoded-" + cls, "detail": f"{ty} {str(c['val'])[:80]} encoded as {out[:80]}"}
-        try:
-            back = mk_arg(ty).fromStringProto(unhx(out.replace("-", "")), None)
-        except Exception as e:
-            return {"key": "arg-roundtrip-" + cls, "detail": f"{ty} {str(c['val'])[:80]}: decoding own encoding raised {type(e).__name__}"}
-        if py_tokens(ty, back) != val_tokens(ty, expected_back(ty, c["val"])):
-            return {"key": "arg-roundtrip-" + cls, "detail": f"{ty} {str(c['val'])[:80]} came back as {' '.join(py_tokens(ty, back))[:120]}"}
+        return _enc_oracle(c["ty"], c["val"], out)
+    if op == "seq":
+        outs = out.split(" | ")
+        if len(outs) != len(c["steps"]):
+            return {"key": "seq-raises", "detail": out[:200]}
+        for i, ((kind, x), o) in enumerate(zip(c["steps"], outs)):
+            if kind == "enc":
+                r = _enc_oracle(c["ty"], x, o)
+            elif kind == "rt":
+                r = _rt_oracle(c["ty"], x, o)
+            else:
+                r = None
+            if r:
+                r["detail"] = f"step {i} of a history on one {c['ty'][:40]} object: " + r["detail"]
+                return r
         return None
     if op == "arg":
         kind = c["kind"]
@@ -1239,6 +1574,40 @@ def oracle(c, out):
         if out != exp:
             return {"key": "arg-roundtrip-" + kind, "detail": f"{kind} {str(c['val'])[:100]}: got {out[:160]} expected {exp[:160]}"}
         return None
+    return None
+
+
+def _enc_oracle(ty, val, out):
+    ok = representable(ty, val)
+    cls = ty_class(ty)
+    if out.startswith("!"):
+        if ok:
+            return {"key": "arg-refused-" + cls, "detail": f"{ty} value refused: {out}"}
+        return None
+    if not ok:
+        return {"key": "arg-unrepresentable-encoded-" + cls, "detail": f"{ty} {str(val)[:80]} encoded as {out[:80]}"}
+    try:
+        back = mk_arg(ty).fromStringProto(unhx(out.replace("-", "")), None)
+    except Exception as e:
+        return {"key": "arg-roundtrip-" + cls, "detail": f"{ty} {str(val)[:80]}: decoding own encoding raised {type(e).__name__}"}
+    if py_tokens(ty, back) != val_tokens(ty, expected_back(ty, val)):
+        return {"key": "arg-roundtrip-" + cls, "detail": f"{ty} {str(val)[:80]} came back as {' '.join(py_tokens(ty, back))[:120]}"}
+    return None
+
+
+def _rt_oracle(ty, val, out):
+    """`<hex> => <tokens>`: encoded and decoded by the SAME Argument object (after whatever it did before)"""
+    ok = representable(ty, val)
+    cls = ty_class(ty)
+    if out.startswith("!"):
+        if ok:
+            return {"key": "arg-refused-" + cls, "detail": f"{ty} value refused: {out}"}
+        return None
+    if not ok:
+        return {"key": "arg-unrepresentable-encoded-" + cls, "detail": f"{ty} {str(val)[:80]} encoded as {out[:80]}"}
+    enc, _, back = out.partition(" => ")
+    if back != " ".join(val_tokens(ty, expected_back(ty, val))):
+        return {"key": "arg-roundtrip-" + cls, "detail": f"{ty} {str(val)[:80]} encoded as {enc[:60]} came back as {back[:120]}"}
     return None
 
 
@@ -1263,7 +1632,9 @@ def tag(c, out):
         sz = c["sizes"]
         style = "one" if not sz else "bytewise" if all(s == 1 for s in sz) else "empty-chunk" if 0 in sz else "cut"
         sent = out.split(" ")[0] if out else ""
-        return f"stream:n{min(len(c['boxes']), 3)}:k{ks[-1:] }:v{vs[-1:]}:{style}:{','.join(sorted(set(sent[5:].split(','))))}"
+        reuse = ":reuse" + "".join(sorted({str(h) for h in c["reuse"] if h})) if any(c.get("reuse") or []) else ""
+        bulk = ":bulk" if sum(len(v) // 2 for b in c["boxes"] for k, v in b) > 131072 else ""
+        return f"stream:n{min(len(c['boxes']), 3)}:k{ks[-1:] }:v{vs[-1:]}:{style}:{','.join(sorted(set(sent[5:].split(','))))}{reuse}{bulk}"
     if op == "feed":
         return f"feed:{len(c['chunks']) > 1}:{out[-8:]}:{min(out.count(';') + (0 if 'recv=.' in out else 1), 3)}"
     if op == "serialize":
@@ -1276,11 +1647,19 @@ def tag(c, out):
         if c["ty"] == "dec" and not out.startswith("!"):
             txt = unhx(out)
             extra = ":" + ("special" if txt.lstrip(b"-")[:1].isalpha() else ("E" if b"E" in txt else "") + ("." if b"." in txt else "") + ("neg" if txt[:1] == b"-" else ""))
+        fl = c.get("flav") or {}
+        extra += "".join(f":{k}={fl[k]}" for k in sorted(fl))
         return f"enc:{_tyname(c['ty'])}{extra}:" + (out if out.startswith("!") else f"ok{_lenclass(len(out) // 2)}")
     if op == "dec":
         return f"dec:{_tyname(c['ty'])}:" + (out if out.startswith("!") else "ok")
     if op == "refuse":
         return "refuse:" + c["bad"]
+    if op == "seq":
+        kinds = "".join(k[0] for k, _ in c["steps"][:4])
+        outs = out.split(" | ")
+        oc = "".join("!" if o.startswith("!") else "k" for o in outs[:4])
+        fl = c.get("flav") or {}
+        return f"seq:{_tyname(c['ty'])}:{kinds}:{oc}" + (":tz" if c.get("sharedtz") else "") + "".join(f":{k}={fl[k]}" for k in sorted(fl))
     return "arg:" + c["kind"] + (":raised" if out.startswith("!") else "")
 
 
@@ -1288,6 +1667,16 @@ def shrink(c):
     op = c["op"]
     if op == "stream":
         boxes, sizes = c["boxes"], c["sizes"]
+        reuse = c.get("reuse")
+        if reuse:
+            for i in range(len(boxes)):
+                yield {"op": op, "boxes": boxes[:i] + boxes[i + 1:], "sizes": sizes, "reuse": reuse[:i] + reuse[i + 1:]}
+            if sizes:
+                yield {"op": op, "boxes": boxes, "sizes": [], "reuse": reuse}
+            for i in range(len(boxes)):
+                if reuse[i] > 1:
+                    yield {"op": op, "boxes": boxes, "sizes": sizes, "reuse": reuse[:i] + [1] + reuse[i + 1:]}
+            return
         for i in range(len(boxes)):
             yield {"op": op, "boxes": boxes[:i] + boxes[i + 1:], "sizes": sizes}
         if sizes:
@@ -1319,22 +1708,47 @@ def shrink(c):
         h = c["hex"]
         for i in range(0, len(h), 2):
             yield {"op": op, "ty": c["ty"], "hex": h[:i] + h[i + 2:]}
-    elif op == "enc" and isinstance(c["val"], list):
+    elif op == "enc" and isinstance(c["val"], list) and pty(c["ty"])[0] in ("L", "A", "uni"):
         v = c["val"]
         for i in range(len(v)):
-            yield {"op": op, "ty": c["ty"], "val": v[:i] + v[i + 1:]}
+            yield dict(c, val=v[:i] + v[i + 1:])
+        if c.get("flav"):
+            for k in c["flav"]:
+                yield dict(c, flav={a: b for a, b in c["flav"].items() if a != k})
+    elif op == "seq":
+        st = c["steps"]
+        for i in range(len(st)):
+            yield dict(c, steps=st[:i] + st[i + 1:])
+        for i, (kind, x) in enumerate(st):
+            if kind == "dec":
+                for j in range(0, len(x), 2):
+                    yield dict(c, steps=st[:i] + [[kind, x[:j] + x[j + 2:]]] + st[i + 1:])
+            elif isinstance(x, list) and pty(c["ty"])[0] in ("L", "A", "uni"):
+                for j in range(len(x)):
+                    yield dict(c, steps=st[:i] + [[kind, x[:j] + x[j + 1:]]] + st[i + 1:])
+        if c.get("flav"):
+            yield {k: v for k, v in c.items() if k != "flav"}
 
 
 def search(rng, tier, disagreeing):
     """Property-directed search: every single cut point and every pair-of-adjacent cut of the disagreeing streams,
     the corpus witnesses, then fresh random cases."""
+    big = 0
     for c in disagreeing[:20]:
         if c["op"] == "stream":
             total = _ideal_wire_len(c["boxes"])
+            extra = {k: c[k] for k in ("reuse",) if k in c}
+            if total > 20000:
+                # maximal values: each run costs ~0.1-1 s of model time; a handful of cuts for the first few streams only
+                big += 1
+                if big <= 3:
+                    for p in (0, 1, 2, 3, total // 2, total - 2, total - 1):
+                        yield dict({"op": "stream", "boxes": c["boxes"], "sizes": [p]}, **extra)
+                continue
             for p in range(0, min(total, 600) + 1):
-                yield {"op": "stream", "boxes": c["boxes"], "sizes": [p]}
+                yield dict({"op": "stream", "boxes": c["boxes"], "sizes": [p]}, **extra)
             if total <= 300:
-                yield {"op": "stream", "boxes": c["boxes"], "sizes": [1] * total}
+                yield dict({"op": "stream", "boxes": c["boxes"], "sizes": [1] * total}, **extra)
         elif c["op"] == "feed":
             whole = "".join(c["chunks"])
             for p in range(0, min(len(whole), 1200) + 1, 2):
